@@ -26,7 +26,7 @@ def ptlit(p):
     return '[' + '; '.join('(%s, %s, %s, %s)' % tuple(flit(c) for c in t) for t in p) + ']'
 
 
-def run_one(rng, nd, cname, method, n, order, dim, gen_kind, full_output, via_setter=False):
+def run_one(rng, nd, cname, method, n, order, dim, gen_kind, full_output, via_setter=False, matrix_x=False):
     seen = []
 
     def f(x):
@@ -43,6 +43,14 @@ def run_one(rng, nd, cname, method, n, order, dim, gen_kind, full_output, via_se
             acc = x[0] * x[0]
             for i in range(1, dim):
                 acc = acc + x[i] * x[i] * (i + 1.0) + x[0] * x[i]
+            return acc
+    if matrix_x and cname == 'Gradient' and method != 'multicomplex':
+        def f(x, seen=seen):   # noqa  (accepts an argument of any shape: what is judged is WHERE it is evaluated)
+            seen.append(q4(x))
+            xx = np.ravel(x)
+            acc = xx[0] * xx[0]
+            for i in range(1, xx.size):
+                acc = acc + xx[i] * xx[i] * (i + 1.0) + xx[0] * xx[i]
             return acc
     kw = {'method': method, 'full_output': full_output}
     if cname == 'Derivative' or (cname in ('Jacobian', 'Gradient') and n != 1):
@@ -85,8 +93,15 @@ def run_one(rng, nd, cname, method, n, order, dim, gen_kind, full_output, via_se
         rec['steps'] = [np.array(s, dtype=float, copy=True) for s in steps]
         return steps, ratio
     d._get_steps = get_steps
-    d(x)
-    return d, x, rec.get('steps'), seen
+    if matrix_x and cname == 'Gradient' and dim % 2 == 0 and dim >= 4:
+        x = x.reshape(2, dim // 2)            # "fun is assumed to be a function of n * m variables": the point is flattened
+    try:
+        d(x)
+    except Exception as ex:   # noqa
+        if not seen or rec.get('steps') is None:
+            raise
+        rec['raised'] = ex                   # the arguments recorded so far are judged first
+    return d, x, rec.get('steps'), seen, rec.get('raised')
 
 
 def predicates(ctx, desc, cname, method, name_hint, x, steps, seen):
@@ -159,7 +174,12 @@ def run(ctx):
         try:
             via_setter = (k >= 0 and k % 6 == 5 and not (cname in ('Jacobian', 'Gradient') and n != 1)) or (-12 <= k < 0 and k % 2 == 0 and cname == 'Derivative')
             desc['configured_through_setters'] = via_setter
-            d, x, steps, seen = run_one(rng, nd, cname, method, n, order, dim, gen_kind, fo, via_setter)
+            matrix_x = cname == 'Gradient' and k % 3 == 1 and method != 'multicomplex'
+            if matrix_x:
+                dim = 4 if k % 2 else 6
+                desc['dim'] = dim
+                desc['x_shape'] = [2, dim // 2]
+            d, x, steps, seen, raised = run_one(rng, nd, cname, method, n, order, dim, gen_kind, fo, via_setter, matrix_x)
         except ValueError as ex:
             if 'num_steps' in str(ex):
                 continue
@@ -175,7 +195,13 @@ def run(ctx):
         nn = d.n
         oo = d.order if cname != 'Hessian' else 2
         name_hint = getattr(d.fd_rule.diff, '__name__', '')
+        if any(len(p) != np.size(x) for p in seen):
+            ctx.violation('argument-size:%s' % cname, 'f receives an argument with %d coordinates for a point with %d' % ([len(p) for p in seen if len(p) != np.size(x)][0], np.size(x)), desc)
+            continue
         predicates(ctx, desc, cname, method, name_hint, x, steps, seen)
+        if raised is not None:
+            ctx.brk('correspondence', 'nd.%s raised %r after %d evaluations' % (cname, raised, len(seen)), desc)
+            continue
         stl = '[' + '; '.join(flist(np.ravel(np.broadcast_to(s, np.shape(np.asarray(x))) if cname == 'Derivative' else s)) for s in steps) + ']'
         cases.append('(%s, %s, %s, %d%%nat, %s, %s, %s, %s, %s, %s, [%s])' % (
             flit(sr), flit(si), flit(sq2), CLS[cname], METHOD[method], zlit(nn), zlit(oo), blit(fo), flist(np.ravel(np.asarray(x, dtype=float))), stl,
